@@ -18,6 +18,7 @@ package main
 
 import (
 	"bytes"
+	"errors"
 	"fmt"
 	"math/rand"
 	"reflect"
@@ -615,6 +616,8 @@ func c10Diff(got, want *c10Rec) string {
 	return ""
 }
 
+var errC10Stop = errors.New("stop reading")
+
 func execFileRetain(codec string, bs, nrecs int, seed int64, closePct int) sx {
 	rng := rand.New(rand.NewSource(seed))
 	want := make([]*c10Rec, nrecs)
@@ -656,11 +659,20 @@ func execFileRetain(codec string, bs, nrecs int, seed int64, closePct int) sx {
 			banks[i].Close()
 		}
 	}
+	// every fourth case stops the read early by returning an error from the callback - after retaining the
+	// record it was given: the bank handed to the callback stays the callback's
+	stopAt := -1
+	if seed%4 == 0 && nrecs > 2 {
+		stopAt = 1 + rng.Intn(nrecs-1)
+	}
 	err = avro.ReadFile(bytes.NewReader(data), c10Rec{}, func(p unsafe.Pointer, rb *avro.ResourceBank) error {
 		kept = append(kept, *(*c10Rec)(p)) // shallow copy, as the callback contract asks
 		banks = append(banks, rb)
 		closed = append(closed, false)
 		i := len(kept) - 1
+		if i == stopAt {
+			return errC10Stop
+		}
 		if rng.Intn(100) < closePct {
 			switch rng.Intn(3) {
 			case 0: // at once
@@ -672,7 +684,13 @@ func execFileRetain(codec string, bs, nrecs int, seed int64, closePct int) sx {
 		}
 		return nil
 	})
-	if err != nil {
+	if stopAt >= 0 {
+		if !errors.Is(err, errC10Stop) {
+			return T("err", A("read-stop"), A(clean(fmt.Sprint(err))))
+		}
+		want = want[:stopAt+1]
+		nrecs = stopAt + 1
+	} else if err != nil {
 		return T("err", A("read"), A(clean(err.Error())))
 	}
 	if len(kept) != nrecs {
